@@ -315,16 +315,21 @@ class TU:
                             def _expand(text, hidden):
                                 def _one(mo):
                                     nm = mo.group(0)
+                                    if not (nm[0].isalpha() or nm[0] == "_"):
+                                        return nm       # a pp-number swallows letters and dots: "2.h" is one token
                                     val = self.macros.get(nm)
                                     if val is None or nm in hidden or not re.fullmatch(r"[\w./+-]*", val):
                                         return nm
                                     return _expand(val, hidden | {nm})
-                                return re.sub(r"[A-Za-z_]\w*", _one, text)
+                                return re.sub(r"\.?\d(?:[eEpP][+-]|[\w.])*|[A-Za-z_]\w*", _one, text)
                             form, sp = "a", _expand(v[1:-1], frozenset())
                         else:
                             raise InvalidWorld(f"computed include value {v!r}")
                     p = self.resolve(sp, form, curdir)
                     if p is None:
+                        if self.m.world["files"][rel].get("encoding", "utf-8") != "utf-8":
+                            # bytes that are no UTF-8 reach the SUT as U+FFFD (it reads with errors="replace")
+                            sp = "".join(ch if ord(ch) < 128 else "\ufffd" for ch in sp)
                         self.events.append((rel, here, sp, form))
                     else:
                         tr = self.m.rel(os.path.realpath(p))
